@@ -247,9 +247,6 @@ Definition exec_view_touches cks L e (b : bundle) : bool :=
   | BGroup ts => existsb (tx_touches cks L) ts
   end.
 
-Definition head_touches cks L (b : bundle) : bool :=
-  match head b with Some t => tx_touches cks L t | None => false end.
-
 Lemma chk_txs_of_hit cks set H h ts :
   is_fork H h = true -> existsb (hit cks set) ts = true -> chk_txs cks set H h ts = true.
 Proof.
@@ -322,12 +319,21 @@ Proof.
   apply (exists_touch_hit cks L set _ HP HT).
 Qed.
 
-Lemma delay_rejects_head cks L set b :
-  parse_list cks L = Some set -> head_touches cks L b = true -> delay_rejects cks set b = true.
+(* the delay entry points look at the transaction itself and at every member of its group *)
+Lemma delay_rejects_members cks set b :
+  delay_rejects cks set b = chk_txs_imm cks set (members b).
 Proof.
-  intros HP HT. unfold delay_rejects, head_touches in *.
-  destruct (head b) as [t|]; [|discriminate].
-  unfold chk_imm. apply (touches_hit cks L set t HP HT).
+  unfold delay_rejects, chk_txs_imm. destruct b as [t inner|[|t tl]]; simpl.
+  - reflexivity.
+  - reflexivity.
+  - destruct (chk_imm cks set t); reflexivity.
+Qed.
+
+Lemma delay_rejects_outer cks L set b :
+  parse_list cks L = Some set -> outer_touches cks L b = true -> delay_rejects cks set b = true.
+Proof.
+  intros HP HT. rewrite delay_rejects_members. unfold chk_txs_imm.
+  exact (exists_touch_hit cks L set _ HP HT).
 Qed.
 
 (** ** rejections are not arbitrary: a hit names a position whose raw form is in the set *)
@@ -362,10 +368,3 @@ Proof.
   - intros _. rewrite orb_false_r. split; reflexivity.
 Qed.
 
-Lemma single_head cks L e t inner :
-  plain e (BSingle t inner) = true ->
-  head_touches cks L (BSingle t inner) = touches cks L e (BSingle t inner).
-Proof.
-  intro P. destruct (plain_views cks L e _ P) as [-> _].
-  unfold head_touches, outer_touches. simpl. rewrite orb_false_r. reflexivity.
-Qed.
